@@ -30,40 +30,40 @@ type Scenario struct {
 }
 
 type Result struct {
-	Violations []Violation       `json:"violations,omitempty"`
-	Digest     string            `json:"digest"`
-	Stats      map[string]int    `json:"stats"`
-	Steps      uint64            `json:"sched_steps"`
-	SimTime    time.Duration     `json:"sim_time"`
-	Triggers   map[string]int    `json:"triggers"`
-	States     map[string]bool   `json:"-"`
-	Blocks     map[string]bool   `json:"-"`
-	Failure    string            `json:"failure,omitempty"`
-	Trace      []string          `json:"-"`
-	Skipped    int               `json:"skipped_steps"`
-	Executed   int               `json:"executed_steps"`
-	Panics     []string          `json:"panics,omitempty"`
+	Violations []Violation              `json:"violations,omitempty"`
+	Digest     string                   `json:"digest"`
+	Stats      map[string]int           `json:"stats"`
+	Steps      uint64                   `json:"sched_steps"`
+	SimTime    time.Duration            `json:"sim_time"`
+	Triggers   map[string]int           `json:"triggers"`
+	States     map[string]bool          `json:"-"`
+	Blocks     map[string]bool          `json:"-"`
+	Failure    string                   `json:"failure,omitempty"`
+	Trace      []string                 `json:"-"`
+	Skipped    int                      `json:"skipped_steps"`
+	Executed   int                      `json:"executed_steps"`
+	Panics     []string                 `json:"panics,omitempty"`
 	Streams    map[string][]*streamItem `json:"-"` // per connection normalised stream (differential checks)
-	Sent       map[int][]byte    `json:"-"` // request payloads actually sent, by step index
-	RIDs       map[int]uint32    `json:"-"`
-	InS0       map[int]bool      `json:"-"` // steps that touch the observed session S0
-	FinalState string            `json:"-"`
+	Sent       map[int][]byte           `json:"-"` // request payloads actually sent, by step index
+	RIDs       map[int]uint32           `json:"-"`
+	InS0       map[int]bool             `json:"-"` // steps that touch the observed session S0
+	FinalState string                   `json:"-"`
 }
 
 type runner struct {
-	sc      *Scenario
-	w       *World
-	m       *Model
-	clients map[int]*Client
-	res     *Result
-	stepIdx int
-	dis     map[int32]bool
-	lastOut *Outcome
-	inappAt map[int]int // per client: inapplicable broadcasts already reported
-	strict  bool
-	inBlock bool
+	sc       *Scenario
+	w        *World
+	m        *Model
+	clients  map[int]*Client
+	res      *Result
+	stepIdx  int
+	dis      map[int32]bool
+	lastOut  *Outcome
+	inappAt  map[int]int // per client: inapplicable broadcasts already reported
+	strict   bool
+	inBlock  bool
 	gridSeen map[string]int
-	desync  bool // the model can no longer follow the server (non-serializable block)
+	desync   bool // the model can no longer follow the server (non-serializable block)
 }
 
 func (r *runner) violate(v Violation) {
@@ -503,6 +503,9 @@ func (r *runner) attributeAnswer(out *Outcome, c *Client, mm *mismatch) {
 	d := fmt.Sprintf("%s at requester %s: %s", out.Kind, c.Label, mm.Detail)
 	base := strings.SplitN(out.Kind, "/", 2)[0]
 	r.v("C04", answerRule[mm.Kind], "%s", d)
+	if mm.Kind == "missing" && !c.Ended() {
+		r.v("C08", "handler-not-returned", "%s is neither answered nor disconnected: %s (%s)", c.Label, d, strings.Join(r.w.sim.Describe(), "; "))
+	}
 	for _, p := range out.Props {
 		switch p {
 		case "C12":
@@ -555,6 +558,9 @@ func (r *runner) attributeRelay(out *Outcome, c *Client, mm *mismatch) {
 		rule = "relay-of-refused"
 	}
 	r.v("C02", rule, "%s", d)
+	if !out.Accepted && base != "depart" && base != "burst" && base != "block" {
+		r.v("C04", "refused-changed-state", "a refused request had a visible effect: %s", d)
+	}
 	switch base {
 	case "custom":
 		r.v("C14", map[string]string{"missing": "recipient-missing", "duplicate": "recipient-duplicate", "extra": "recipient-extra", "wrong": "body-altered"}[mm.Kind], "%s", d)
@@ -611,7 +617,7 @@ func (r *runner) serverCheck(kind string) bool {
 		switch kind {
 		case "depart", "join":
 			return "C06", map[string]string{"entities": "entity-survived", "components": "attachment-survived", "actions": "attachment-survived", "assets": "attachment-survived", "participants": "ghost-participant"}[cat]
-		case "comp_add", "comp_delete", "comp_update":
+		case "comp_add", "comp_delete", "comp_update", "type_add", "type_get_name", "type_get_id", "comp_list", "subscribe", "unsubscribe":
 			return "C12", "store-state"
 		case "action", "asset_add":
 			return "C16", "action-state-mismatch"
